@@ -353,3 +353,33 @@ Section Wiring.
     && forallb (fun p => mem (fst p) (map fst doc_wiring)) dsl_paths
     && forallb (fun e => mem (fst e) (map fst dsl_paths)) doc_wiring.
 End Wiring.
+
+(* ------------------------------------------------------------------ operand selectors, Object.Is and Node.Is tables *)
+(* [pred_eval] assumes: subExpr yields the expression, the X of an ExprStmt, nothing otherwise; typeofNode gives a type to
+   expressions and fields only, unaliased, and the invalid type otherwise. The regenerated bodies must be these. *)
+Definition doc_subexpr_cases : list (string * string) :=
+  [("ast.Expr", "return n"); ("*ast.ExprStmt", "return n.X"); ("default", "return nil")].
+Definition doc_typeof_cases : list (string * string) := [("ast.Expr", "e = n"); ("*ast.Field", "e = n.Type")].
+Definition doc_typeof_tail : string :=
+  "if typ := params.ctx.Types.TypeOf(e); typ != nil { return types.Unalias(typ) } ;; return invalidType".
+
+Definition pair_eqb (a b : string * string) : bool := String.eqb (fst a) (fst b) && String.eqb (snd a) (snd b).
+Definition pairs_same (a b : list (string * string)) : bool :=
+  Nat.eqb (List.length a) (List.length b) && nodupb (map fst a)
+  && forallb (fun p => existsb (pair_eqb p) b) a.
+
+Definition selectors_okb (se tc : list (string * string)) (tail : string) : bool :=
+  pairs_same se doc_subexpr_cases && pairs_same tc doc_typeof_cases && String.eqb tail doc_typeof_tail.
+
+(* dsl.go, TypesObject.Is: "Func", "Var", "Const", "TypeName", "Label", "PkgName", "Builtin", "Nil" name the go/types
+   object types; the closure asserts the dynamic type *types.<name>, and exactly these names are accepted at load *)
+Definition doc_object_kinds : list string := ["Func"; "Var"; "Const"; "TypeName"; "Label"; "PkgName"; "Builtin"; "Nil"].
+Definition object_is_okb (tab : list (string * string)) (accepted : list string) : bool :=
+  pairs_same tab (map (fun n => (n, "*types." ++ n)) doc_object_kinds)
+  && Nat.eqb (List.length accepted) (List.length doc_object_kinds) && forallb (fun n => mem n accepted) doc_object_kinds.
+
+(* dsl.go, MatchedNode.Is: "Expr" / "Stmt" / "Node" are interface tests, any other name is the node's go/ast type *)
+Definition doc_node_is : list (string * string) :=
+  [("Expr", "_, matched = n.(ast.Expr)"); ("Stmt", "_, matched = n.(ast.Stmt)"); ("Node", "matched = true");
+   ("default", "matched = (tag == nodetag.FromNode(n))")].
+Definition node_is_okb (tab : list (string * string)) : bool := pairs_same tab doc_node_is.
